@@ -207,6 +207,7 @@ inductive Val (V : Type) where
   | term (t : Term V)
   | expr (e : Expr V)
   | ineq (q : Ineq V)
+  | bool (b : Bool)             -- only ever produced by `Ineq == str/number` (default `object.__eq__`: `False`)
   deriving Repr
 
 inductive Err where
@@ -218,18 +219,37 @@ inductive Err where
 /-- the `AddTerm` view of a value -/
 def Val.operand? : Val V → Option (Operand V)
   | .str v => some (.str v) | .num n => some (.num n) | .lit l => some (.lit l)
-  | .term t => some (.term t) | .expr e => some (.expr e) | .ineq _ => none
+  | .term t => some (.term t) | .expr e => some (.expr e) | .ineq _ => none | .bool _ => none
+
+/-- what `Expr.__add__` / `__sub__` raise for an operand that is not an `AddTerm`: `Exception("Invalid type")` for an
+    `Ineq`; a `bool` IS an `int` for Python (it would be accepted) — `bool` operands are outside the model -/
+def operandErr : Val V → Err
+  | .bool _ => .unmodelled
+  | _ => .exception
 
 /-- `Expr() + x` (raises `Exception("Invalid type")` for anything else) -/
 def exprOf (x : Val V) : Except Err (Expr V) :=
   match x.operand? with
   | some o => .ok ((⟨0, []⟩ : Expr V).add o)
-  | none => .error .exception
+  | none => .error (operandErr x)
 
 def pyNeg : Val V → Except Err (Val V)
   | .lit l => .ok (.lit l.neg)
   | .term t => .ok (.term t.neg)
   | .num n => .ok (.num n.neg)
+  | .bool _ => .error .unmodelled
+  | _ => .error .typeError
+
+/-- `~x`: no class of the module defines `__invert__`; on an `int` it is `-x - 1`, on a `float` a `TypeError` -/
+def pyInv : Val V → Except Err (Val V)
+  | .num (.int z) => .ok (.num (.int (-z - 1)))
+  | .bool _ => .error .unmodelled
+  | _ => .error .typeError
+
+/-- unary `+x`: no class of the module defines `__pos__` -/
+def pyPos : Val V → Except Err (Val V)
+  | .num n => .ok (.num n)
+  | .bool _ => .error .unmodelled
   | _ => .error .typeError
 
 def pyMul : Val V → Val V → Except Err (Val V)
@@ -246,37 +266,78 @@ def pyMul : Val V → Val V → Except Err (Val V)
   | .lit _, .term _ => .error .typeError
   | .term _, .lit _ => .error .typeError
   | .term _, .term _ => .error .typeError
+  -- `Term(self, other)` / `self.c * int(other)`: `int()` of an `Expr` / `Ineq` is a `TypeError`
+  | .lit _, .expr _ => .error .typeError
+  | .lit _, .ineq _ => .error .typeError
+  | .term _, .expr _ => .error .typeError
+  | .term _, .ineq _ => .error .typeError
+  -- `Expr.__mul__` / `__rmul__` with anything but a number: `Exception("Invalid type")`
+  | .expr _, .ineq _ => .error .exception
+  | .expr _, .str _ => .error .exception
+  | .str _, .expr _ => .error .exception
+  | .ineq _, .expr _ => .error .exception        -- `Ineq` has no `__mul__`: `Expr.__rmul__(ineq)`
+  -- `Ineq` has no `__mul__` / `__rmul__`; the reflected `Literal/Term.__rmul__(ineq)` ends in `int(ineq)`
+  | .ineq _, .lit _ => .error .typeError
+  | .ineq _, .term _ => .error .typeError
+  | .ineq _, .num _ => .error .typeError
+  | .ineq _, .str _ => .error .typeError
+  | .ineq _, .ineq _ => .error .typeError
+  | .num _, .ineq _ => .error .typeError
+  | .str _, .ineq _ => .error .typeError
+  -- `str * Literal`, `Literal * str`, … end in `int(name)` (depends on the characters of the name); builtin-only
+  -- combinations (`str`/number with `str`/number) and `bool` operands are outside the model
   | _, _ => .error .unmodelled
 
 /-- `Expr() + a + b` for `a` a literal or a term (`__add__` and `__radd__` both put `self` first) -/
 def addLT (a : Operand V) (b : Val V) : Except Err (Val V) :=
   match b.operand? with
   | some o => .ok (.expr (((⟨0, []⟩ : Expr V).add a).add o))
-  | none => .error .exception
+  | none => .error (operandErr b)
 
 def pyAdd : Val V → Val V → Except Err (Val V)
   | .lit l, b => addLT (.lit l) b
   | .term t, b => addLT (.term t) b
   | .expr e, b => match b.operand? with
       | some o => .ok (.expr (e.add o))
-      | none => .error .exception
+      | none => .error (operandErr b)
   | .num n, .lit l => addLT (.lit l) (.num n)
   | .num n, .term t => addLT (.term t) (.num n)
   | .str s, .lit l => addLT (.lit l) (.str s)
   | .str s, .term t => addLT (.term t) (.str s)
   | .num _, .expr _ => .error .typeError
   | .str _, .expr _ => .error .typeError
+  -- `Ineq` has no `__add__` / `__radd__`; `Literal/Term.__radd__(ineq)` is `Expr() + self + ineq`; `Expr` has no `__radd__`
+  | .ineq _, .lit _ => .error .exception
+  | .ineq _, .term _ => .error .exception
+  | .ineq _, .expr _ => .error .typeError
+  | .ineq _, .num _ => .error .typeError
+  | .ineq _, .str _ => .error .typeError
+  | .ineq _, .ineq _ => .error .typeError
+  | .num _, .ineq _ => .error .typeError
+  | .str _, .ineq _ => .error .typeError
   | _, _ => .error .unmodelled
 
 def pySub : Val V → Val V → Except Err (Val V)
   | .expr e, b => match b.operand? with
       | some o => .ok (.expr (e.sub o))
-      | none => .error .exception
+      | none => .error (operandErr b)
   | .lit _, _ => .error .typeError
   | .term _, _ => .error .typeError
   | .num _, .expr _ => .error .typeError
   | .num _, .lit _ => .error .typeError
   | .num _, .term _ => .error .typeError
+  -- only `Expr` defines `__sub__`, nothing defines `__rsub__`
+  | .str _, .lit _ => .error .typeError
+  | .str _, .term _ => .error .typeError
+  | .str _, .expr _ => .error .typeError
+  | .ineq _, .lit _ => .error .typeError
+  | .ineq _, .term _ => .error .typeError
+  | .ineq _, .expr _ => .error .typeError
+  | .ineq _, .num _ => .error .typeError
+  | .ineq _, .str _ => .error .typeError
+  | .ineq _, .ineq _ => .error .typeError
+  | .num _, .ineq _ => .error .typeError
+  | .str _, .ineq _ => .error .typeError
   | _, _ => .error .unmodelled
 
 /-- the reflected operator Python tries when the left operand does not implement the comparison -/
@@ -303,14 +364,49 @@ def pyCmp (o : CmpOp) : Val V → Val V → Except Err (Val V)
   | .str s, .lit l => cmpPB o.swap (exprOfLit l) (.str s)
   | .str s, .term t => cmpPB o.swap (exprOfTerm t) (.str s)
   | .str s, .expr e => cmpPB o.swap e (.str s)
+  -- `Ineq` defines no comparison: Python tries the reflected operator of the right operand, which for a
+  -- `Literal` / `Term` / `Expr` is `… (Expr() + ineq)` → `Exception("Invalid type")`
+  | .ineq _, .lit _ => .error .exception
+  | .ineq _, .term _ => .error .exception
+  | .ineq _, .expr _ => .error .exception
+  -- against a `str` / number: ordering is a `TypeError`, `==` falls back to identity (`False`)
+  | .ineq _, .num _ => if o = .eq ∨ o = .eqeq then .ok (.bool false) else .error .typeError
+  | .ineq _, .str _ => if o = .eq ∨ o = .eqeq then .ok (.bool false) else .error .typeError
+  | .num _, .ineq _ => if o = .eq ∨ o = .eqeq then .ok (.bool false) else .error .typeError
+  | .str _, .ineq _ => if o = .eq ∨ o = .eqeq then .ok (.bool false) else .error .typeError
+  -- `ineq ⋈ ineq`: ordering is a `TypeError`; `==` is object identity, which a value model cannot decide
+  | .ineq _, .ineq _ => if o = .eq ∨ o = .eqeq then .error .unmodelled else .error .typeError
   | _, _ => .error .unmodelled
 
-/-- direct constructor call `Ineq(a, b, "op")` on two expressions -/
-def pyIneq (o : String) : Val V → Val V → Except Err (Val V)
-  | .expr a, .expr b => match Ineq.makeStr a b o with
-      | some q => .ok (.ineq q)
-      | none => .error .exception
-  | _, _ => .error .unmodelled
+/-- `Ineq.__init__` after the operator has been normalised, for a left side that is an `Expr` and any right operand
+    `Expr.__sub__` accepts: `self.lhs = lhs - rhs; self.rhs = -self.lhs.c; self.lhs.c = 0` -/
+def Ineq.makeOp (l : Expr V) (x : Operand V) (op : NOp) : Ineq V :=
+  let d := l.sub x
+  ⟨⟨0, d.t⟩, -d.c, op⟩
+
+/-- normalised operator and whether the two sides are swapped -/
+def CmpOp.norm : CmpOp → NOp × Bool
+  | .ge => (.ge, false) | .le => (.ge, true) | .gt => (.gt, false) | .lt => (.gt, true)
+  | .eq => (.eq, false) | .eqeq => (.eq, false)
+
+/-- direct constructor call `Ineq(a, b, "op")`.  The operator string is checked first; then `lhs - rhs` is evaluated
+    on the (possibly swapped) arguments: only an `Expr` on the left supports it (`Literal` / `Term` / `Ineq` / `str`
+    have no `__sub__` and nothing has `__rsub__`: `TypeError`); number − number is an `int` without `.c`
+    (`AttributeError`, outside the model). -/
+def pyIneq (o : String) (a b : Val V) : Except Err (Val V) :=
+  match parseOp o with
+  | none => .error .exception
+  | some c =>
+    let (op, sw) := c.norm
+    let (l, r) := if sw then (b, a) else (a, b)
+    match l, r with
+    | .bool _, _ => .error .unmodelled
+    | _, .bool _ => .error .unmodelled
+    | .expr e, r => match r.operand? with
+        | some x => .ok (.ineq (Ineq.makeOp e x op))
+        | none => .error .exception
+    | .num _, .num _ => .error .unmodelled
+    | _, _ => .error .typeError
 
 /-- Python expression over the pseudo-Boolean classes -/
 inductive Tree (V : Type) where
@@ -318,6 +414,8 @@ inductive Tree (V : Type) where
   | num (n : Num)               -- an `int` / `float` operand
   | lit (v : V) (s : Bool)      -- `Literal(v, s)`
   | neg (a : Tree V)
+  | inv (a : Tree V)            -- `~a`
+  | pos (a : Tree V)            -- `+a`
   | mul (a b : Tree V)
   | add (a b : Tree V)
   | sub (a b : Tree V)
@@ -330,10 +428,36 @@ def Tree.run : Tree V → Except Err (Val V)
   | .num n => .ok (.num n)
   | .lit v s => .ok (.lit ⟨v, s⟩)
   | .neg a => do pyNeg (← a.run)
+  | .inv a => do pyInv (← a.run)
+  | .pos a => do pyPos (← a.run)
   | .mul a b => do let x ← a.run; let y ← b.run; pyMul x y
   | .add a b => do let x ← a.run; let y ← b.run; pyAdd x y
   | .sub a b => do let x ← a.run; let y ← b.run; pySub x y
   | .cmp o a b => do let x ← a.run; let y ← b.run; pyCmp o x y
   | .ineq o a b => do let x ← a.run; let y ← b.run; pyIneq o x y
+
+/-- the builtin `sum(items, start)`: `result = start; for x in items: result = result + x` (the fast paths of CPython's
+    `sum` for exact ints / floats compute the same values) -/
+def Tree.sumFrom (start : Tree V) (items : List (Tree V)) : Tree V := items.foldl Tree.add start
+
+/-- `sum(items)`: the start value is the int `0`, so the first addition is `0 + x` — the reflected `__radd__` of a
+    `Literal` / `Term`, and a `TypeError` for an `Expr` (which has no `__radd__`) -/
+def Tree.sumOf (items : List (Tree V)) : Tree V := Tree.sumFrom (.num (.int 0)) items
+
+/-! ### `tostr` (variable names are Python strings) -/
+/-- `Literal.tostr` -/
+def Literal.tostr (l : Literal String) : String := if l.s then l.v else "-" ++ l.v
+/-- `Term.tostr`: `str(self.c) + " " + self.L.tostr()` -/
+def Term.tostr (t : Term String) : String := toString t.c ++ " " ++ t.L.tostr
+/-- `Expr.tostr` -/
+def Expr.tostr (e : Expr String) : String := String.join (e.t.map fun t => t.tostr ++ " + ") ++ toString e.c
+def NOp.str : NOp → String | .ge => ">=" | .gt => ">" | .eq => "="
+/-- `Ineq.tostr`; `clause` is the attribute set by an earlier `isclause()` (`none` = never called / not a clause) -/
+def Ineq.tostr (q : Ineq String) (clause : Option (List (Literal String))) : String :=
+  match clause with
+  | some c => " + ".intercalate (c.map fun l => "1 " ++ l.tostr) ++ " >= 1"
+  | none => q.lhs.tostr ++ " " ++ q.op.str ++ " " ++ toString q.rhs
+/-- `serdat` of `getrobdd`: the memo key of `constructrobdd` -/
+def serdat (d : List (Term String) × Int) : String := ",".intercalate (d.1.map Term.tostr) ++ ";" ++ toString d.2
 
 end FV.PB
